@@ -9,7 +9,7 @@ ENGINE = os.path.join(VERIF, "engine", "cs2smt")
 
 CONFIG = {
     "C04": dict(suites="core,comp", queries="honest",
-                judged=("honest", "honest-witness", "forward-consistent", "compile-reject"),
+                judged=("honest", "honest-witness", "forward-consistent", "forward-sound", "compile-reject"),
                 title="compiled systems compute what the circuit specifies (completeness / functional correctness / compile-option independence)"),
     "C05": dict(suites="core,comp", queries="sound", judged=("sound", "sound-witness"),
                 title="emitted constraints admit no spec-violating assignment (all hint/internal wires adversarial)"),
@@ -75,6 +75,9 @@ def reproduced(r, resp):
     if q == "honest":
         # the real solver fails on an input the documentation says must work
         return not resp.get("ok")
+    if q == "forward-sound":
+        # the real solver succeeds on inputs / outputs outside the documented relation
+        return bool(resp.get("ok"))
     if q == "compile-reject":
         return (resp.get("error") or "").startswith("compile:")
     return False
@@ -142,7 +145,7 @@ def run(prop, tier, collect=False):
             continue
         if r["result"] == r["expect"]:
             continue
-        if r["result"] == "sat" and r["query"] in ("sound", "honest", "compile-reject"):
+        if r["result"] == "sat" and r["query"] in ("sound", "honest", "compile-reject", "forward-sound"):
             bad.append(r)
         else:
             inconclusive.append(r)
